@@ -1,29 +1,115 @@
 #!/usr/bin/env python3
-"""For every seeded change: apply it to /repo, run the quick check of the property it was written
-against under several seeds, undo it.  Prints which (change, seed) pairs are caught; writes
-seeded/SWEEP.json.  usage: seedsweep.py [seeds...] (default 1 2 3)"""
-import json, os, subprocess, sys, time
+"""Run the checks against every seeded change (and every harmless change) in parallel, in private
+copies, without touching /repo or /verif/evidence:
+
+  seedsweep.py [--jobs N] [--seeds 1 2 3] [--only PREFIX] [--benign]
+
+Each worker owns /tmp/verif-sweep/wK/{repo,verif}: a git worktree of /repo HEAD and a copy of /verif
+whose harness depends on that worktree (RTCP_REPO points the tools at it).  For a seeded change
+`m-Cnn-x` the quick check of Cnn runs under every seed; for a harmless change `b-*` all twenty quick
+checks run under seed 1.  Writes seeded/SWEEP.json (seeded changes) and seeded/BENIGN.json.
+The scratch directory is removed at the end.
+"""
+import concurrent.futures as cf
+import json
+import os
+import subprocess
+import sys
+import time
+
 VERIF = os.path.dirname(os.path.dirname(os.path.abspath(__file__)))
-ENV = dict(os.environ, CARGO_NET_OFFLINE="true")
-seeds = [int(x) for x in sys.argv[1:]] or [1, 2, 3]
-names = sorted(d for d in os.listdir(os.path.join(VERIF, "seeded")) if d.startswith("m-"))
-res = {}
-for name in names:
-    d = os.path.join(VERIF, "seeded", name)
-    pid = json.load(open(os.path.join(d, "meta.json")))["breaks_property"]
-    if subprocess.run(["git", "-C", "/repo", "status", "--porcelain"], capture_output=True, text=True).stdout.strip():
-        print("/repo not clean"); sys.exit(2)
-    subprocess.run(["git", "-C", "/repo", "apply", os.path.join(d, "patch.diff")], check=True)
-    try:
+ROOT = "/tmp/verif-sweep"
+ALL = [f"C{k:02d}" for k in range(1, 21)]
+
+
+def sh(cmd, **kw):
+    p = subprocess.run(cmd, shell=isinstance(cmd, str), stdout=subprocess.PIPE, stderr=subprocess.STDOUT, text=True, **kw)
+    return p.returncode, p.stdout
+
+
+def setup(k):
+    w = f"{ROOT}/w{k}"
+    sh(["git", "-C", "/repo", "worktree", "remove", "--force", f"{w}/repo"])
+    sh(["rm", "-rf", w]); os.makedirs(w)
+    rc, out = sh(["git", "-C", "/repo", "worktree", "add", "--detach", f"{w}/repo", "HEAD"])
+    assert rc == 0, out
+    sh(["rsync", "-a", "--exclude", "replays", "--exclude", "work", "--exclude", ".git", VERIF + "/", f"{w}/verif/"])
+    sh(["sed", "-i", f's#path = "/repo"#path = "{w}/repo"#', f"{w}/verif/harness/Cargo.toml"])
+    sh(["touch"] + [os.path.join(f"{w}/verif/harness/src", f) for f in os.listdir(f"{w}/verif/harness/src")])
+    return w
+
+
+def worker(k, tasks):
+    w = setup(k)
+    env = dict(os.environ, CARGO_NET_OFFLINE="true", RTCP_REPO=f"{w}/repo")
+    res = {}
+    for name, pids, seeds in tasks:
+        patch = os.path.join(VERIF, "seeded", name, "patch.diff")
+        rc, out = sh(["git", "-C", f"{w}/repo", "apply", patch])
+        if rc:
+            res[name] = {"error": "patch does not apply: " + out[-200:]}; continue
         row = {}
-        for s in seeds:
-            p = subprocess.run([os.path.join(VERIF, "check"), pid, "--tier", "quick"], cwd=VERIF, env=dict(ENV, VERIF_SEED=str(s)),
-                               stdout=subprocess.PIPE, stderr=subprocess.STDOUT, text=True)
-            v = [l for l in p.stdout.split("\n") if l.startswith("VIOLATION")]
-            row[str(s)] = "caught" if p.returncode == 1 and any("no-failing-input-found" not in l for l in v) else ("caught-by-correspondence-only" if p.returncode == 1 else f"MISSED(rc={p.returncode})")
-        res[name] = {"property": pid, "seeds": row}
-        print(name, pid, row, flush=True)
-    finally:
-        subprocess.run(["git", "-C", "/repo", "checkout", "--", "."], check=True)
-json.dump({"at": time.strftime("%Y-%m-%d %H:%M"), "commit": subprocess.run(["git", "-C", VERIF, "rev-parse", "--short", "HEAD"], capture_output=True, text=True).stdout.strip(),
-           "results": res}, open(os.path.join(VERIF, "seeded", "SWEEP.json"), "w"), indent=1)
+        try:
+            for pid in pids:
+                for s in seeds:
+                    rc, out = sh([f"{w}/verif/check", pid, "--tier", "quick"], cwd=f"{w}/verif", env=dict(env, VERIF_SEED=str(s)))
+                    v = [l for l in out.split("\n") if l.startswith("VIOLATION")]
+                    if rc == 1 and any("no-failing-input-found" not in l for l in v): verdict = "caught"
+                    elif rc == 1: verdict = "caught-without-input"
+                    elif rc == 0: verdict = "quiet"
+                    else: verdict = f"error(rc={rc}): " + out[-200:]
+                    row[f"{pid}/{s}"] = verdict
+        finally:
+            sh(["git", "-C", f"{w}/repo", "checkout", "--", "."])
+        res[name] = row
+        print(name, {k: v for k, v in row.items() if v != ("quiet" if name.startswith("b-") else "caught")} or "as expected", flush=True)
+    sh(["git", "-C", "/repo", "worktree", "remove", "--force", f"{w}/repo"])
+    sh(["rm", "-rf", w])
+    return res
+
+
+def main():
+    a = sys.argv[1:]
+    jobs, seeds, only, benign = 4, [1, 2, 3], None, False
+    i = 0
+    while i < len(a):
+        if a[i] == "--jobs": jobs = int(a[i + 1]); i += 2
+        elif a[i] == "--seeds":
+            seeds = []
+            i += 1
+            while i < len(a) and a[i].isdigit(): seeds.append(int(a[i])); i += 1
+        elif a[i] == "--only": only = a[i + 1]; i += 2
+        elif a[i] == "--benign": benign = True; i += 1
+        else: print(__doc__); sys.exit(2)
+    names = sorted(d for d in os.listdir(os.path.join(VERIF, "seeded")) if d.startswith("b-" if benign else "m-") and (not only or d.startswith(only)))
+    tasks = []
+    for n in names:
+        meta = json.load(open(os.path.join(VERIF, "seeded", n, "meta.json")))
+        if benign:
+            if meta.get("tests_pass") is False: continue
+            tasks.append((n, ALL, [1]))
+        else:
+            tasks.append((n, [meta["breaks_property"]], seeds))
+    t0 = time.time()
+    slices = [tasks[k::jobs] for k in range(jobs)]
+    res = {}
+    with cf.ThreadPoolExecutor(max_workers=jobs) as ex:
+        for r in ex.map(lambda kv: worker(*kv), [(k, s) for k, s in enumerate(slices) if s]):
+            res.update(r)
+    sh(["rm", "-rf", ROOT]); sh(["git", "-C", "/repo", "worktree", "prune"])
+    out = {"at": time.strftime("%Y-%m-%d %H:%M"), "verif_commit": sh(["git", "-C", VERIF, "rev-parse", "--short", "HEAD"])[1].strip(),
+           "seeds": [1] if benign else seeds, "wall_s": round(time.time() - t0), "results": dict(sorted(res.items()))}
+    json.dump(out, open(os.path.join(VERIF, "seeded", "BENIGN.json" if benign else "SWEEP.json"), "w"), indent=1)
+    if benign:
+        bad = {n: [k for k, v in r.items() if v != "quiet"] for n, r in res.items()}
+        bad = {n: v for n, v in bad.items() if v}
+        print(f"{len(res)} harmless changes, {len(res) - len(bad)} quiet on all checks; alarms: {bad}")
+    else:
+        missed = {n: [k for k, v in r.items() if not str(v).startswith("caught")] for n, r in res.items()}
+        missed = {n: v for n, v in missed.items() if v}
+        noinput = sum(1 for r in res.values() for v in r.values() if v == "caught-without-input")
+        print(f"{len(res)} seeded changes x seeds {seeds}: missed {missed}; caught without a failing input: {noinput} runs")
+
+
+if __name__ == "__main__":
+    main()
